@@ -238,7 +238,7 @@ ADDED = {
     'C03': "Added: (R9) a stream popped from pending_window_updates always passes the release step; (R10) a release that queues a stream WINDOW_UPDATE wakes the connection task.",
     'C04': "Added: (R4b) promotion from pending_open only behind has_send_capacity; (R6, typestate) the State::is_* tests guarding a stream WINDOW_UPDATE build site admit no closed state over the 15 reference states; (R7) one idle boundary id < next / id >= next and next_stream_id advances to id.next_id(); (R8) block contiguity (= C01.R5).",
     'C05': "Added: (R5) every stream popped from pending_open is counted; (R6) queue_open exactly under is_local_init && !is_pending_push; (R7) the refusal slot is emptied only after the RST_STREAM(REFUSED_STREAM) was buffered.",
-    'C06': "Added: path-sensitive forms of the ping registration and closer notification rules (every exit registers / notifies).",
+    'C06': "Added: path-sensitive forms of the ping registration and closer notification rules (every exit registers / notifies). (R8 = C05.R3) a stream popped from a work queue is processed or re-queued on every path.",
     'C07': "Added: (R2) every non-error exit of recv_eof / handle_error / recv_go_away passed the per-stream walk and the walk notifies every stream on every path; (R6) 30 rows: a connection error / EOF closes every live state and leaves closed ones (a cleanly ended stream still delivers); (R8) Drop for UserPingsRx publishes CLOSED before waking.",
     'C08': "Added: (R6, TSTATE) for 15 states x own-RST-queued, a stream that State::recv_reset turns into a remote reset was counted by Recv::recv_reset, so assert!(num_remote_reset_streams > 0) is unreachable; (R7) SETTINGS_MAX_FRAME_SIZE below 2^14 is refused (ordering regions at the store); (R8) owed-reply slots are never emptied without the reply; (R9) reset ids are retired; (R10) the client's only self-wake is edge-triggered; (R11) preface reads are bounded by the bytes still missing.",
     'C09': "Added: (R8) one idle boundary for all comparisons of an id with next_stream_id; (R9) every connection error queues a GOAWAY with its code and fails the streams; the only short-cuts (handle_go_away, go_away_now) compare reason and last-stream-id with the GOAWAY in flight.",
